@@ -46,10 +46,30 @@ func uniform(b []byte) (byte, bool) {
 	return b[0], true
 }
 
+var dropped int
+
+type rec struct {
+	ts1, ts2 uint64
+	kind     int // 0 W, 1 R, 2 T, 3 S
+	a        uint64
+	x        byte
+	resp     string
+}
+
+// overlapsWrite: some write of address a in ws was pending at some point of [ts1, ts2]
+func overlapsWrite(ts1, ts2, a uint64, ws []rec) bool {
+	for _, w := range ws {
+		if w.kind == 0 && w.a == a && w.ts1 < ts2 && ts1 < w.ts2 {
+			return true
+		}
+	}
+	return false
+}
+
 func main() {
 	seed := flag.Uint64("seed", 1, "seed")
 	nh := flag.Int("n", 100, "histories")
-	workload := flag.String("workload", "mem", "mem | file-disjoint | file-handoff")
+	workload := flag.String("workload", "mem", "mem | file-disjoint | file-handoff | file-shared")
 	maxThreads := flag.Int("threads", 5, "max goroutines")
 	maxOps := flag.Int("ops", 5, "max ops per goroutine")
 	sync_ := flag.Bool("sync", false, "spin barrier before every call so that calls of different goroutines overlap")
@@ -63,6 +83,11 @@ func main() {
 	w := bufio.NewWriterSize(os.Stdout, 1<<20)
 	defer w.Flush()
 	master := rng.New(*seed)
+	defer func() {
+		if *workload == "file-shared" {
+			fmt.Fprintf(os.Stderr, "file-shared: %d reads overlapping a write of their address were left out\n", dropped)
+		}
+	}()
 	for h := 0; h < *nh; h++ {
 		r := master.Fork()
 		nthreads := 2 + r.Intn(*maxThreads-1)
@@ -85,13 +110,6 @@ func main() {
 		}
 		var ctr atomic.Uint64
 		var handoff sync.Mutex
-		type rec struct {
-			ts1, ts2 uint64
-			kind     int // 0 W, 1 R, 2 T, 3 S
-			a        uint64
-			x        byte
-			resp     string
-		}
 		recs := make([][]rec, nthreads)
 		start := make(chan struct{})
 		var wg sync.WaitGroup
@@ -116,6 +134,15 @@ func main() {
 					}
 				}
 				k := tr.Intn(10)
+				if *workload == "file-shared" {
+					// one writer (goroutine 0), every other goroutine only reads: writes to one
+					// address never overlap each other, reads race with them on shared addresses
+					if t == 0 {
+						k = 0
+					} else if k < 4 {
+						k = 4 + k%5
+					}
+				}
 				switch {
 				case k < 4:
 					x := byte(1 + (t*41+i*7)%250)
@@ -198,6 +225,14 @@ func main() {
 		var all []event
 		for t, rs := range recs {
 			for _, p := range rs {
+				if *workload == "file-shared" && (p.kind == 1 || p.kind == 2) && overlapsWrite(p.ts1, p.ts2, p.a, recs[0]) {
+					// the result of a pread racing with a pwrite of the same block is the
+					// kernel's business; what is judged is every read ordered in real time
+					// with all writes of its address (dropping reads keeps a linearizable
+					// history linearizable)
+					dropped++
+					continue
+				}
 				inv := ""
 				switch p.kind {
 				case 0:
